@@ -494,22 +494,52 @@ def text_template(f: FuncInfo, e: ast.AST | None, depth: int = 3) -> str | None:
 
 
 def collection_build(f: FuncInfo, name: str):
-    """How the local list/dict `name` is built: ('comp', iter, elt/(key,value), ifs) or ('loop', iter, appended expr/(key,value), guards) or None."""
+    """How the local list/dict `name` is built: ('comp', target, iter, elt/(key,value), ifs) or ('loop', target, iter, appended expr/(key,value), guards) or None.
+    Guards of the loop form are the tests of the enclosing ifs plus `not c` for every `if c: continue` that precedes the insertion in the loop body."""
     for d in local_defs(f, name):
         if isinstance(d, (ast.ListComp, ast.DictComp)) and len(d.generators) == 1:
             g = d.generators[0]
             elt = d.elt if isinstance(d, ast.ListComp) else (d.key, d.value)
             return ("comp", g.target, g.iter, elt, list(g.ifs))
+
+    def guards_of(lp, st):
+        guards = [i.test for i in ast.walk(lp) if isinstance(i, ast.If) and any(x is st for b in i.body for x in ast.walk(b))]
+        guards += [ast.UnaryOp(op=ast.Not(), operand=i.test) for i in ast.walk(lp) if isinstance(i, ast.If) and any(x is st for b in i.orelse for x in ast.walk(b))]
+        for top in lp.body:
+            if any(x is st for x in ast.walk(top)):
+                break
+            if isinstance(top, ast.If) and not top.orelse and top.body and isinstance(top.body[-1], ast.Continue):
+                guards.append(ast.UnaryOp(op=ast.Not(), operand=top.test))
+        return guards
+
     for lp in ast.walk(f.node):
         if isinstance(lp, ast.For):
             for st in ast.walk(lp):
                 if isinstance(st, ast.Call) and isinstance(st.func, ast.Attribute) and dotted(st.func.value) == name and st.func.attr == "append" and len(st.args) == 1:
-                    guards = [i.test for i in ast.walk(lp) if isinstance(i, ast.If) and any(x is st for x in ast.walk(i))]
-                    return ("loop", lp.target, lp.iter, st.args[0], guards)
+                    return ("loop", lp.target, lp.iter, st.args[0], guards_of(lp, st))
                 if isinstance(st, ast.Assign) and len(st.targets) == 1 and isinstance(st.targets[0], ast.Subscript) and dotted(st.targets[0].value) == name:
-                    guards = [i.test for i in ast.walk(lp) if isinstance(i, ast.If) and any(x is st for x in ast.walk(i))]
-                    return ("loop", lp.target, lp.iter, (st.targets[0].slice, st.value), guards)
+                    return ("loop", lp.target, lp.iter, (st.targets[0].slice, st.value), guards_of(lp, st))
     return None
+
+
+def deep_returns(ctx, f: FuncInfo, depth: int = 2) -> list[tuple[FuncInfo, ast.expr | None]]:
+    """(function, returned expression) of f where `return helper(...)` of a private helper is replaced by the helper's own returns (parameters substituted)."""
+    from .. import flow as _flow
+
+    out = []
+    helpers = {h.qualname for h in helper_callees(ctx, f)} if depth > 0 else set()
+    for r in own_returns(f):
+        v = r.value
+        inner = v.value if isinstance(v, ast.Await) else v
+        done = False
+        if isinstance(inner, ast.Call):
+            cals = [c for c in ctx.res.callees(f, inner, record=False) if c.qualname in helpers]
+            if len(cals) == 1:
+                out.extend(deep_returns(ctx, _flow._substituted(cals[0], inner), depth - 1))
+                done = True
+        if not done:
+            out.append((f, v))
+    return out
 
 
 def feeds(f: FuncInfo, e: ast.AST, depth: int = 3) -> list[ast.AST]:
